@@ -54,7 +54,20 @@ func c05Data(r *Rand, labels []string, allowDollar bool) PStmt {
 	for i := 0; i < n; i++ {
 		switch x := r.Intn(12); {
 		case x < 6:
-			s.Items = append(s.Items, numItem(c05Number(r, w), r.Intn(3)))
+			it := numItem(c05Number(r, w), r.Intn(3))
+			if r.Chance(1, 5) {
+				// leading zeros: still the same decimal / hexadecimal number
+				z := Pick(r, []string{"0", "00", "000"})
+				switch {
+				case strings.HasPrefix(it.Text, "-"):
+					it.Text = "-" + z + it.Text[1:]
+				case strings.HasPrefix(it.Text, "0x"):
+					it.Text = "0x" + z + it.Text[2:]
+				default:
+					it.Text = z + it.Text
+				}
+			}
+			s.Items = append(s.Items, it)
 		case x < 8:
 			e, v := genConstExpr(r, r.Range(1, 3), nil, nil)
 			s.Items = append(s.Items, DItem{Kind: "num", Num: v, Text: e.Render(r.Intn(3))})
